@@ -44,6 +44,9 @@ def agg_(adt, variant, vi):
 
 def run(ctx):
     _run(ctx)
+    ctx.delegate("C14", ["C14.seek", "C14.one"], "C06.position",
+                 "after a typed read failed the following records are still located by their index entries (absolute seeks), so "
+                 "record by record the typed read equals the generic read plus conversion", floor=3)
     ctx.delegate("C07", ["C07.progress"], "C06.resync",
                  "after a failed typed read the index-less iteration does not go on decoding from an unsynchronised position "
                  "(which could yield a value of a type the file does not hold)", floor=4)
